@@ -95,7 +95,16 @@ def exec_fit(case):
 
     x, _ = gen_data(case)
     d = case["d"]
-    mu1, S1, nu1 = lib_call(fit_mvstud, x.copy(), what="fit_mvstud")
+    # the caller's own array, in one of several memory layouts, handed over twice: the answer for the same argument must be the same
+    # and must describe the array the caller holds
+    layout = ["C", "F", "T"][case["seed"] % 3]
+    xa = np.asfortranarray(x.copy()) if layout == "F" else (np.ascontiguousarray(x.T.copy()).T if layout == "T" else x.copy())
+    mu1, S1, nu1 = lib_call(fit_mvstud, xa, what="fit_mvstud")
+    mu1b, S1b, nu1b = lib_call(fit_mvstud, xa, what="fit_mvstud (same array again)")
+    if not (np.allclose(mu1, mu1b, rtol=0, atol=1e-12 * (1 + np.max(np.abs(mu1)))) and np.allclose(S1, S1b, rtol=1e-12, atol=0)):
+        raise Violation(f"fitting the same array twice gives different results (location {np.asarray(mu1).tolist()} then {np.asarray(mu1b).tolist()}): "
+                        f"the fit changes its argument (memory layout {layout})", sig={"kind": "not-a-function-of-its-argument"})
+    check_fit(np.asarray(xa), mu1, S1, nu1, "fit_mvstud(x) against the array the caller holds")
     sd1 = check_fit(x, mu1, S1, nu1, "fit_mvstud(x)")
     # transformed copy: y = D x + t, coordinates permuted
     D = 10.0 ** np.array([float(v) for v in case["logscale"]])
